@@ -32,7 +32,7 @@ macro_rules! qwt_get_law {
     ($name:ident, $t:ty, $n:expr, $pin:expr, $levels:expr, $pfs:expr, $unw:expr) => {
         #[kani::proof]
         #[kani::unwind($unw)]
-        #[kani::stub(<[$t]>::copy_from_slice, copy_elemwise)]
+        #[kani::stub(crate::utils::stable_partition_of_4, part4_stub)]
         #[kani::stub(PrefetchSupport::new, pfs_new_stub)]
         #[kani::stub(PrefetchSupport::approx_rank_unchecked, pfs_approx_stub)]
         fn $name() {
@@ -61,7 +61,7 @@ macro_rules! qwt_rank_law {
     ($name:ident, $t:ty, $n:expr, $pin:expr, $pfs:expr, $unw:expr) => {
         #[kani::proof]
         #[kani::unwind($unw)]
-        #[kani::stub(<[$t]>::copy_from_slice, copy_elemwise)]
+        #[kani::stub(crate::utils::stable_partition_of_4, part4_stub)]
         #[kani::stub(PrefetchSupport::new, pfs_new_stub)]
         #[kani::stub(PrefetchSupport::approx_rank_unchecked, pfs_approx_stub)]
         fn $name() {
@@ -94,7 +94,7 @@ macro_rules! qwt_select_law {
     ($name:ident, $t:ty, $n:expr, $pin:expr, $pfs:expr, $unw:expr) => {
         #[kani::proof]
         #[kani::unwind($unw)]
-        #[kani::stub(<[$t]>::copy_from_slice, copy_elemwise)]
+        #[kani::stub(crate::utils::stable_partition_of_4, part4_stub)]
         #[kani::stub(PrefetchSupport::new, pfs_new_stub)]
         #[kani::stub(PrefetchSupport::approx_rank_unchecked, pfs_approx_stub)]
         fn $name() {
@@ -121,67 +121,79 @@ macro_rules! qwt_select_law {
 }
 
 // ---- u8: 4 levels
-// @h props=C01,C04,C10,C12:t,C19:t tier=quick family=M prof=AB mem=5 timeout=1800 stubs=ModelRS,slice::copy_from_slice->elementwise_loop role=qwt.get.u8
+// @h props=C01,C04,C10,C12:t,C19:t tier=quick family=M prof=AB mem=5 timeout=1800 stubs=ModelRS,utils::stable_partition_of_4->fixed_array_reference(c17) role=qwt.get.u8
+// @bound QWaveletTree<u8, ModelRS>: length 3, contents symbolic with s[2] = 255 (4 levels); get for every index of the machine range; len, sigma, n_levels
+// @funcs QWaveletTree::new, QWaveletTree::get, QWaveletTree::get_unchecked, QWaveletTree::len, QWaveletTree::sigma, QWaveletTree::n_levels, utils::stable_partition_of_4, utils::msb, QVectorBuilder::push
+qwt_get_law!(c01_get_u8_n3, u8, 3, 2, 4, false, 8);
+// @h props=C01:t,C04:t,C10:t,C12:t,C19:t tier=thorough family=M mem=5 timeout=1800 stubs=ModelRS,utils::stable_partition_of_4->fixed_array_reference(c17) role=qwt.get.u8
 // @bound QWaveletTree<u8, ModelRS>: length 4, contents symbolic with s[3] = 255 (4 levels); get for every index of the machine range; len, sigma, n_levels
 // @funcs QWaveletTree::new, QWaveletTree::get, QWaveletTree::get_unchecked, QWaveletTree::len, QWaveletTree::sigma, QWaveletTree::n_levels, utils::stable_partition_of_4, utils::msb, QVectorBuilder::push
 qwt_get_law!(c01_get_u8_n4, u8, 4, 3, 4, false, 8);
-// @h props=C01,C04,C09,C10 tier=quick family=M prof=AB mem=5 timeout=2400 stubs=ModelRS,slice::copy_from_slice->elementwise_loop role=qwt.rank.u8
+// @h props=C01,C04,C09,C10 tier=quick family=M prof=AB mem=5 timeout=2400 stubs=ModelRS,utils::stable_partition_of_4->fixed_array_reference(c17) role=qwt.rank.u8
+// @bound QWaveletTree<u8, ModelRS>: length 3 (s[2] = 255); rank and rank_prefetch for every symbol and every position of the machine range, checked and unchecked; block estimates of the model arbitrary (<= true rank)
+// @funcs QWaveletTree::new, QWaveletTree::rank, QWaveletTree::rank_unchecked, QWaveletTree::rank_prefetch, QWaveletTree::rank_prefetch_unchecked
+qwt_rank_law!(c01_rank_u8_n3, u8, 3, 2, false, 8);
+// @h props=C01:t,C04:t,C09:t,C10:t tier=thorough family=M mem=5 timeout=2400 stubs=ModelRS,utils::stable_partition_of_4->fixed_array_reference(c17) role=qwt.rank.u8
 // @bound QWaveletTree<u8, ModelRS>: length 4 (s[3] = 255); rank and rank_prefetch for every symbol and every position of the machine range, checked and unchecked; block estimates of the model arbitrary (<= true rank)
 // @funcs QWaveletTree::new, QWaveletTree::rank, QWaveletTree::rank_unchecked, QWaveletTree::rank_prefetch, QWaveletTree::rank_prefetch_unchecked
 qwt_rank_law!(c01_rank_u8_n4, u8, 4, 3, false, 8);
-// @h props=C01,C04,C10 tier=quick family=M mem=5 timeout=2400 stubs=ModelRS,slice::copy_from_slice->elementwise_loop role=qwt.select.u8
+// @h props=C01,C04,C10 tier=quick family=M mem=5 timeout=2400 stubs=ModelRS,utils::stable_partition_of_4->fixed_array_reference(c17) role=qwt.select.u8
+// @bound QWaveletTree<u8, ModelRS>: length 3 (s[2] = 255); select for every symbol and every k of the machine range, checked and unchecked
+// @funcs QWaveletTree::new, QWaveletTree::select, QWaveletTree::select_unchecked
+qwt_select_law!(c01_select_u8_n3, u8, 3, 2, false, 8);
+// @h props=C01:t,C04:t,C10:t tier=thorough family=M mem=5 timeout=2400 stubs=ModelRS,utils::stable_partition_of_4->fixed_array_reference(c17) role=qwt.select.u8
 // @bound QWaveletTree<u8, ModelRS>: length 4 (s[3] = 255); select for every symbol and every k of the machine range, checked and unchecked
 // @funcs QWaveletTree::new, QWaveletTree::select, QWaveletTree::select_unchecked
 qwt_select_law!(c01_select_u8_n4, u8, 4, 3, false, 8);
-// @h props=C01,C09 tier=quick family=M mem=5 timeout=2400 stubs=ModelRS,PrefetchSupport::new->default,PrefetchSupport::approx_rank_unchecked->monotone_multiple_of_2048,slice::copy_from_slice->elementwise_loop role=qwt.rank.u8.pfs
+// @h props=C01,C09 tier=quick family=M mem=5 timeout=2400 stubs=ModelRS,PrefetchSupport::new->default,PrefetchSupport::approx_rank_unchecked->monotone_multiple_of_2048,utils::stable_partition_of_4->fixed_array_reference(c17) role=qwt.rank.u8.pfs
 // @bound QWaveletTree<u8, ModelRS, true> (prefetch support on; PrefetchSupport replaced by its contract stub): length 3 (s[0] = 255); rank == rank_prefetch for all arguments
 // @funcs QWaveletTree::new, QWaveletTree::rank, QWaveletTree::rank_prefetch, QWaveletTree::rank_prefetch_unchecked, QWaveletTree::rank_prefetch_superblocks_unchecked
 qwt_rank_law!(c01_rank_u8_n3_pfs, u8, 3, 0, true, 8);
-// @h props=C01 tier=quick family=M mem=5 timeout=2400 stubs=ModelRS,PrefetchSupport::new->default,slice::copy_from_slice->elementwise_loop role=qwt.get.u8.pfs
+// @h props=C01 tier=quick family=M mem=5 timeout=2400 stubs=ModelRS,PrefetchSupport::new->default,utils::stable_partition_of_4->fixed_array_reference(c17) role=qwt.get.u8.pfs
 // @bound QWaveletTree<u8, ModelRS, true>: length 3 (s[1] = 255): get
 // @funcs QWaveletTree::new, QWaveletTree::get
 qwt_get_law!(c01_get_u8_n3_pfs, u8, 3, 1, 4, true, 8);
 // ---- u16: 8 levels
-// @h props=C01,C19:t tier=quick family=M mem=5 timeout=2400 stubs=ModelRS,slice::copy_from_slice->elementwise_loop role=qwt.get.u16
+// @h props=C01,C19:t tier=thorough family=M mem=5 timeout=2400 stubs=ModelRS,utils::stable_partition_of_4->fixed_array_reference(c17) role=qwt.get.u16
 // @bound QWaveletTree<u16, ModelRS>: length 3 (s[0] = 65535, 8 levels): get
 // @funcs QWaveletTree::new, QWaveletTree::get
 qwt_get_law!(c01_get_u16_n3, u16, 3, 0, 8, false, 10);
-// @h props=C01 tier=thorough family=M mem=5 timeout=2400 stubs=ModelRS,slice::copy_from_slice->elementwise_loop role=qwt.rank.u16
+// @h props=C01 tier=thorough family=M mem=5 timeout=2400 stubs=ModelRS,utils::stable_partition_of_4->fixed_array_reference(c17) role=qwt.rank.u16
 // @bound QWaveletTree<u16, ModelRS>: length 3: rank / rank_prefetch
 // @funcs QWaveletTree::new, QWaveletTree::rank, QWaveletTree::rank_prefetch
 qwt_rank_law!(c01_rank_u16_n3, u16, 3, 0, false, 10);
-// @h props=C01 tier=thorough family=M mem=5 timeout=2400 stubs=ModelRS,slice::copy_from_slice->elementwise_loop role=qwt.select.u16
+// @h props=C01 tier=thorough family=M mem=5 timeout=2400 stubs=ModelRS,utils::stable_partition_of_4->fixed_array_reference(c17) role=qwt.select.u16
 // @bound QWaveletTree<u16, ModelRS>: length 3: select
 // @funcs QWaveletTree::new, QWaveletTree::select
 qwt_select_law!(c01_select_u16_n3, u16, 3, 0, false, 10);
 // ---- u32: 16 levels
-// @h props=C01 tier=thorough family=M mem=5 timeout=3000 stubs=ModelRS,slice::copy_from_slice->elementwise_loop role=qwt.get.u32
+// @h props=C01 tier=thorough family=M mem=5 timeout=3000 stubs=ModelRS,utils::stable_partition_of_4->fixed_array_reference(c17) role=qwt.get.u32
 // @bound QWaveletTree<u32, ModelRS>: length 3 (16 levels): get
 // @funcs QWaveletTree::new, QWaveletTree::get
 qwt_get_law!(c01_get_u32_n3, u32, 3, 2, 16, false, 18);
-// @h props=C01 tier=thorough family=M mem=5 timeout=3000 stubs=ModelRS,slice::copy_from_slice->elementwise_loop role=qwt.rank.u32
+// @h props=C01 tier=thorough family=M mem=5 timeout=3000 stubs=ModelRS,utils::stable_partition_of_4->fixed_array_reference(c17) role=qwt.rank.u32
 // @bound QWaveletTree<u32, ModelRS>: length 2: rank
 // @funcs QWaveletTree::new, QWaveletTree::rank
 qwt_rank_law!(c01_rank_u32_n2, u32, 2, 1, false, 18);
 // ---- u64 / usize: 32 levels
-// @h props=C01,C19:t tier=thorough family=M mem=5 timeout=3600 stubs=ModelRS,slice::copy_from_slice->elementwise_loop role=qwt.get.u64
+// @h props=C01,C19:t tier=thorough family=M mem=5 timeout=3600 stubs=ModelRS,utils::stable_partition_of_4->fixed_array_reference(c17) role=qwt.get.u64
 // @bound QWaveletTree<u64, ModelRS>: length 2 (32 levels): get
 // @funcs QWaveletTree::new, QWaveletTree::get
 qwt_get_law!(c01_get_u64_n2, u64, 2, 0, 32, false, 34);
-// @h props=C01 tier=thorough family=M mem=5 timeout=3600 stubs=ModelRS,slice::copy_from_slice->elementwise_loop role=qwt.get.usize
+// @h props=C01 tier=thorough family=M mem=5 timeout=3600 stubs=ModelRS,utils::stable_partition_of_4->fixed_array_reference(c17) role=qwt.get.usize
 // @bound QWaveletTree<usize, ModelRS>: length 2 (32 levels): get
 // @funcs QWaveletTree::new, QWaveletTree::get
 qwt_get_law!(c01_get_usize_n2, usize, 2, 1, 32, false, 34);
 // ---- u128: 64 levels (shifts >= 64)
-// @h props=C01,C19:t tier=quick family=M mem=5 timeout=3600 stubs=ModelRS,slice::copy_from_slice->elementwise_loop role=qwt.get.u128
+// @h props=C01,C19:t tier=thorough family=M mem=5 timeout=3600 stubs=ModelRS,utils::stable_partition_of_4->fixed_array_reference(c17) role=qwt.get.u128
 // @bound QWaveletTree<u128, ModelRS>: length 2 (s[1] = u128::MAX, 64 levels): get - values above 2^64
 // @funcs QWaveletTree::new, QWaveletTree::get, utils::stable_partition_of_4
 qwt_get_law!(c01_get_u128_n2, u128, 2, 1, 64, false, 66);
-// @h props=C01 tier=thorough family=M mem=5 timeout=3600 stubs=ModelRS,slice::copy_from_slice->elementwise_loop role=qwt.rank.u128
+// @h props=C01 tier=thorough family=M mem=5 timeout=3600 stubs=ModelRS,utils::stable_partition_of_4->fixed_array_reference(c17) role=qwt.rank.u128
 // @bound QWaveletTree<u128, ModelRS>: length 2: rank
 // @funcs QWaveletTree::new, QWaveletTree::rank
 qwt_rank_law!(c01_rank_u128_n2, u128, 2, 0, false, 66);
-// @h props=C01 tier=thorough family=M mem=5 timeout=3600 stubs=ModelRS,slice::copy_from_slice->elementwise_loop role=qwt.select.u128
+// @h props=C01 tier=thorough family=M mem=5 timeout=3600 stubs=ModelRS,utils::stable_partition_of_4->fixed_array_reference(c17) role=qwt.select.u128
 // @bound QWaveletTree<u128, ModelRS>: length 2: select
 // @funcs QWaveletTree::new, QWaveletTree::select
 qwt_select_law!(c01_select_u128_n2, u128, 2, 0, false, 66);
@@ -191,7 +203,7 @@ macro_rules! qwt_concrete {
     ($name:ident, $t:ty, $seq:expr, $n:expr, $levels:expr, $unw:expr) => {
         #[kani::proof]
         #[kani::unwind($unw)]
-        #[kani::stub(<[$t]>::copy_from_slice, copy_elemwise)]
+        #[kani::stub(crate::utils::stable_partition_of_4, part4_stub)]
         fn $name() {
             let s: [$t; $n] = $seq;
             let mut w = s;
@@ -234,23 +246,23 @@ macro_rules! qwt_concrete {
         }
     };
 }
-// @h props=C01,C04 tier=quick family=M mem=5 timeout=1800 stubs=ModelRS,slice::copy_from_slice->elementwise_loop role=qwt.concrete.sigma5
+// @h props=C01,C04 tier=quick family=M mem=5 timeout=1800 stubs=ModelRS,utils::stable_partition_of_4->fixed_array_reference(c17) role=qwt.concrete.sigma5
 // @bound concrete sequence [1,0,1,0,2,4,5,3] minus two (6 symbols, max 5: 2 levels, hole-free), queries symbolic over the machine range: get, rank, rank_prefetch, select, symbols above max give None
 // @funcs QWaveletTree::new, QWaveletTree::get, QWaveletTree::rank, QWaveletTree::rank_prefetch, QWaveletTree::select
 qwt_concrete!(c01_concrete_sigma5, u8, [1, 0, 2, 4, 5, 3], 6, 2, 10);
-// @h props=C01 tier=quick family=M mem=5 timeout=1800 stubs=ModelRS,slice::copy_from_slice->elementwise_loop role=qwt.concrete.one_symbol
+// @h props=C01 tier=quick family=M mem=5 timeout=1800 stubs=ModelRS,utils::stable_partition_of_4->fixed_array_reference(c17) role=qwt.concrete.one_symbol
 // @bound concrete one-symbol sequences: [0,0,0] (max 0: one level) - queries symbolic
 // @funcs QWaveletTree::new, QWaveletTree::get, QWaveletTree::rank, QWaveletTree::select
 qwt_concrete!(c01_concrete_zeros, u16, [0, 0, 0], 3, 1, 10);
-// @h props=C01 tier=quick family=M mem=5 timeout=1800 stubs=ModelRS,slice::copy_from_slice->elementwise_loop role=qwt.concrete.pow4
+// @h props=C01 tier=quick family=M mem=5 timeout=1800 stubs=ModelRS,utils::stable_partition_of_4->fixed_array_reference(c17) role=qwt.concrete.pow4
 // @bound concrete sequences around a power of 4: [15,16,3,16,0] (max 16: 3 levels, holes), queries symbolic
 // @funcs QWaveletTree::new, QWaveletTree::get, QWaveletTree::rank, QWaveletTree::select
 qwt_concrete!(c01_concrete_pow4, u32, [15, 16, 3, 16, 0], 5, 3, 10);
-// @h props=C01 tier=thorough family=M mem=5 timeout=1800 stubs=ModelRS,slice::copy_from_slice->elementwise_loop role=qwt.concrete.sigma3
+// @h props=C01 tier=thorough family=M mem=5 timeout=1800 stubs=ModelRS,utils::stable_partition_of_4->fixed_array_reference(c17) role=qwt.concrete.sigma3
 // @bound concrete [3,3,1,0] (max 3 = 4-1: one level), queries symbolic
 // @funcs QWaveletTree::new, QWaveletTree::get, QWaveletTree::rank, QWaveletTree::select
 qwt_concrete!(c01_concrete_sigma3, u64, [3, 3, 1, 0], 4, 1, 10);
-// @h props=C01 tier=thorough family=M mem=5 timeout=1800 stubs=ModelRS,slice::copy_from_slice->elementwise_loop role=qwt.concrete.sigma4
+// @h props=C01 tier=thorough family=M mem=5 timeout=1800 stubs=ModelRS,utils::stable_partition_of_4->fixed_array_reference(c17) role=qwt.concrete.sigma4
 // @bound concrete [4,1,4] (max 4: two levels), queries symbolic
 // @funcs QWaveletTree::new, QWaveletTree::get, QWaveletTree::rank, QWaveletTree::select
 qwt_concrete!(c01_concrete_sigma4, u8, [4, 1, 4], 3, 2, 10);
@@ -293,7 +305,7 @@ fn c01_empty_model() {
 // @funcs QWaveletTree::new, QWaveletTree::get
 #[kani::proof]
 #[kani::unwind(8)]
-#[kani::stub(<[u8]>::copy_from_slice, copy_elemwise)]
+#[kani::stub(crate::utils::stable_partition_of_4, part4_stub)]
 fn c01_false_twin() {
     let s = any_seq!(u8, 3, 2);
     let mut w = s;
